@@ -34,6 +34,8 @@ def payload(ptype, i):
     if ptype == "tensor":
         import torch
         return torch.arange(6).view(2, 3) + 10 * i
+    if ptype == "runtimeclass":
+        return _runtime_class()(i, "s%d" % i)
     if ptype == "bf16":
         import torch
         return (torch.arange(6).view(2, 3) + 10 * i).to(torch.bfloat16)
@@ -44,6 +46,24 @@ def payload(ptype, i):
         import numpy as np
         return (np.full((2,), float(i), dtype=np.float64), i)
     raise ValueError(ptype)
+
+
+def _runtime_class():
+    """a payload type that exists only in the running program (a class made at run time in a module that is not on
+    disk - what a notebook / REPL session has): picklable in this process and every forked one"""
+    import collections
+    import types
+    name = "kdverif_runtime_payloads"
+    if name not in sys.modules:
+        mod = types.ModuleType(name)
+        cls = collections.namedtuple("Sample", ["a", "b"])
+        cls.__module__ = name
+        mod.Sample = cls
+        sys.modules[name] = mod
+    return sys.modules[name].Sample
+
+
+_runtime_class()   # made before any cache (and its manager process) exists, as a session's own classes are
 
 
 def eq(a, b):
@@ -191,7 +211,10 @@ def child_main(conn, pristine, ptype, posttransform=True):
             old = (ds, gate)
             ds, gate, broken = fresh_or_error()
             del old        # the objects of the previous schedule go away now (ungated; they hold no reference cycles)
-            pristine.shared_dict.clear()
+            try:
+                pristine.shared_dict.clear()
+            except BaseException as e:  # noqa: reaching the shared cache from a reader process is the cache's own code
+                broken = broken or ("Share:" + type(e).__name__)
             conn.send(("resetdone",))
         elif broken is not None and cmd[0] in ("access", "clear", "copydrop"):
             conn.send(("exc", broken))
@@ -461,6 +484,43 @@ def stacked_trace(ptype, r, length, k=0):
     return dict(cfg=dict(workload=f"stacked_caches{k}", ptype=ptype, tr=True, nprocs=1, choices=[]), ev=ev)
 
 
+def oob_trace(ptype, k=0):
+    """indices the wrapped dataset refuses: the cached dataset refuses them in the same way (before and after the
+    valid indices were cached)"""
+    from kappadata.caching.shared_dict_dataset import SharedDictDataset
+    n = len(IDX)
+
+    class Strict:
+        def __len__(self):
+            return n
+
+        def __getitem__(self, i):
+            if not 0 <= int(i) < n:
+                raise IndexError(i)
+            return payload(ptype, int(i))
+
+    def outcome(ds, i):
+        try:
+            ds[i]
+            return "value"
+        except BaseException as e:  # noqa
+            return type(e).__name__
+
+    ev = []
+    try:
+        base = Strict()
+        ds = SharedDictDataset(Strict(), transform=T)
+        for rnd in range(2):
+            for i in (n, n + 3, -1, -n - 1, 2 * n):
+                ev.append(dict(a="oob", p="p1", i=int(i), same=bool(outcome(ds, i) == outcome(base, i))))
+            for i in IDX:
+                val, vi = decode(ptype, ds[i])
+                ev.append(dict(a="plain", p="p1", i=i, val=val, vi=vi))
+    except BaseException as e:  # noqa
+        ev.append(dict(a="exc", p="p1", type=type(e).__name__))
+    return dict(cfg=dict(workload=f"out_of_range{k}", ptype=ptype, tr=True, nprocs=1, choices=[]), ev=ev)
+
+
 def sequential_history(r, length):
     w = []
     for _ in range(length):
@@ -551,8 +611,8 @@ def run(prop, tier, seed):
     # ---- (R/T) every interleaving on the real class
     traces = []
     workloads = WORKLOADS_QUICK if quick else WORKLOADS_THOROUGH
-    ptypes = (["int", "tensor", "optional", "ndarray"] if quick else
-              ["int", "tuple", "bytes", "tensor", "optional", "ndarray", "bf16", "ndtuple"])
+    ptypes = (["int", "tensor", "optional", "ndarray", "runtimeclass"] if quick else
+              ["int", "tuple", "bytes", "tensor", "optional", "ndarray", "bf16", "ndtuple", "runtimeclass"])
     exhaustive = True
     variants = [(pt, True) for pt in ptypes] + [("int", False)]   # (payload type, post-cache transform configured?)
     for pi, (ptype, tr) in enumerate(variants):
@@ -590,6 +650,8 @@ def run(prop, tier, seed):
     for ptype in (["int", "ndarray"] if quick else ["int", "tuple", "ndarray", "tensor"]):
         for k in range(2 if quick else 6):
             traces.append(stacked_trace(ptype, r, 60, k))
+    for k, ptype in enumerate(["int", "tensor"] if quick else ["int", "tuple", "tensor", "ndarray"]):
+        traces.append(oob_trace(ptype, k))
     for i, t in enumerate(traces, start=1):
         t["id"] = i
     v.coverage["evaluations"] = len(traces)
